@@ -17,9 +17,9 @@ DEMO="_seed/demo$K.py"
 cd "$WT"
 rundemo() {
   if grep -q "^def test_\|^async def test_\|pytest" "$DEMO" && grep -q "def test_" "$DEMO"; then
-    timeout 600 /venv/bin/python -m pytest -q -p no:cacheprovider "$DEMO" >"$1" 2>&1
+    PYTHONPATH="$WT" timeout 600 /venv/bin/python -m pytest -q -p no:cacheprovider "$DEMO" >"$1" 2>&1
   else
-    timeout 600 /venv/bin/python "$DEMO" >"$1" 2>&1
+    PYTHONPATH="$WT" timeout 600 /venv/bin/python "$DEMO" >"$1" 2>&1
   fi
   echo $?
 }
